@@ -54,8 +54,13 @@ TAlive == /\ IsEvent("alive") /\ Expect(alive, "process-died") /\ UNCHANGED vars
 TBatchAlloc == /\ IsEvent("batchalloc") /\ Expect(Ev.bytes <= 268435456, "memory-for-announced-lengths") /\ UNCHANGED vars
 TAlloc == /\ IsEvent("alloc") /\ Expect(Ev.bytes <= 67108864, "alloc-before-arrival") /\ UNCHANGED vars
 
+(* followup{c,res,bytes,name,proto}: after the poison the same connection (still open) asked for a response with a body:
+   served | refused | hung;   cpu{busy_ms,wall_ms,where}: processor time the process used while everything was idle *)
+TFollowUp == /\ IsEvent("followup") /\ Expect(Ev.res # "hung", "request-after-poison-never-completes") /\ UNCHANGED vars
+TCpu == /\ IsEvent("cpu") /\ Expect(Ev.busy_ms * 2 <= Ev.wall_ms, "proxy-spins-when-idle") /\ UNCHANGED vars
+
 TNote == IsEvent("note") /\ UNCHANGED vars
 
-TraceNext == TNote \/ TBatchAlloc \/ TAlloc \/ TOpen \/ TServe \/ TPoison \/ TSeen \/ TClose \/ TGauge \/ TWedged \/ TAlive
+TraceNext == TNote \/ TFollowUp \/ TCpu \/ TBatchAlloc \/ TAlloc \/ TOpen \/ TServe \/ TPoison \/ TSeen \/ TClose \/ TGauge \/ TWedged \/ TAlive
 TraceSpec == TraceInit /\ [][TraceNext]_tvars
 ====
